@@ -20,7 +20,7 @@ META = dict(
     ],
     bounds=dict(
         quick="explicit psi/rho: all 3^n strings for n<=2, 8 strings at n=3, 2 strings with user-added symbolic unitaries; "
-        "model paths: complex (n,h)=(2,2) and mixed (2,1,1) all 9 strings, positive (2,2) 4 strings; outcome batches = all basis rows plus a permuted batch with repeats",
+        "model paths: complex (n,h)=(2,2) and mixed (2,1,1) all 9 strings, positive (2,2) 4 strings; outcome batches = all basis rows, a permuted batch with repeats, a pairwise distinct unsorted subset; call dictionaries redefining letters of the state's own dictionary (rotate_psi, rotate_rho, inner_prod, rho_probs)",
         thorough="explicit psi/rho: all 3^n strings for n<=3, all 81 strings at n=4 (rotate_psi / inner_prod; rotate_rho at n=4 on 12 strings), 36 strings at n=5 (psi paths); "
         "model paths additionally complex (3,2) on 18 strings, mixed (2,2,2) and (3,1,1)",
     ),
